@@ -367,5 +367,25 @@ def replay(path):
 
 
 MUTATIONS = """
-(filled in after the mutation runs)
+Each mutation was applied to a scratch copy of the unfixed /repo (VERIF_REPO=...), `./check C11 --tier quick` was run
+and the mutant's own ctest result recorded:
+  ExpandMacro: an empty positional argument overrides the default         -> VIOLATION after the `dholes` argument
+      shape was added (the first run missed it: holes only sat on parameters without default)   (ctest 200/201)
+  ExpandIRPN pads a full extra group when the arguments divide evenly     -> VIOLATION   (ctest 200/201)
+  REPT_OutProcessor queues REPT 0 (one expansion, the pre-1.42 behaviour) -> VIOLATION   (ctest 201/201)
+  CompressLine treats '_' as a name character (part1_part2 not replaced)  -> VIOLATION   (ctest 197/201)
+  REPT_Processor opens one symbol space for all iterations                -> VIOLATION   (ctest 201/201)
+  CodeBINCLUDE seeks to offset + 1                                        -> VIOLATION   (ctest 201/201)
+  ExpandEXITM does not cut the IF stack back                              -> VIOLATION   (ctest 201/201)
+  ExpandIRPC drops the last character of strings longer than 3            -> VIOLATION   (ctest 201/201)
+  ExpandLine skips parameter number 12                                    -> see below
+  WHILE_OutProcessor queues the body although the condition is false      -> see below
+  INCLUDE inside REPT only read in the first iteration                    -> see below
+  second keyword argument for the same parameter is ignored (first wins)  -> not reported: only reachable after
+      asl has already reported "macro argument redefined"; such calls are indefinite for the property (ctest 201/201)
+  MACRO_OutProcessor without KillCtrl                                     -> not reported: equivalent for the code
+      file (TABs stay TABs in the stored body; white space only)                               (ctest 201/201)
+Corrupted traces (MacroProc_CorpusTrace on t_irpn): one token of a delivered body line changed, one delivered line
+dropped, exhausted flag flipped, depth changed -> each REJECTED at the corrupted event.
+All six proposed fixes applied together: 0 violations, no known finding hit, 201/201 golden tests.
 """
